@@ -47,6 +47,10 @@ def gen_elem(r, kind):
         return ("str", r.choice(["a", "b", "ab", "", "c"]))
     if kind == "mix":
         return r.choice([("int", 1), ("dec", 1.0), ("int", 2), ("dec", 2.0), ("dec", 0.5), ("int", 0)])
+    if kind == "eqlist":
+        # equal values with different spellings, nested: [1] == [1.0], [0.0] == [-0.0]
+        return r.choice([("list", (("int", 1),)), ("list", (("dec", 1.0),)), ("list", (("dec", 0.0),)), ("list", (("dec", -0.0),)), ("list", (("int", 0),)),
+                         ("list", (("list", (("int", 2),)),)), ("list", (("list", (("dec", 2.0),)),)), ("list", (("int", 1), ("int", 2))), ("list", (("dec", 1.0), ("int", 2)))])
     if kind == "obj":
         # equal objects are distinct values that compare equal (also: lists of them, maps)
         return r.choice([("obj", (("a", ("int", r.randint(0, 2))),)), ("obj", (("a", ("int", 1)), ("b", ("str", "x")))), ("obj", ()),
@@ -138,7 +142,7 @@ def run_collections(spec, ctx):
     R = Runner(ctx)
     r = ctx.rng
     for i in range(spec["n"]):
-        kind = r.choice(["int", "int", "dec", "str", "mix", "obj"])
+        kind = r.choice(["int", "int", "dec", "str", "mix", "obj", "eqlist"])
         a, b = gen_list(r, kind), gen_list(r, kind)
         as_set = r.random() < 0.5
         b_as_set = r.random() < 0.5
